@@ -588,11 +588,49 @@ func ruleFitInputs(c *Ctx) {
 		"a rule fit always carries the isolation score of the peers selected for it, filled or not")
 }
 
+// ruleSearchExhaustive: the best assignment is found by trying every
+// combination: the loop of enumPeers over the candidates is left only when the
+// candidates are exhausted (no break, no early return — "all rules satisfied"
+// says nothing about the isolation score of the combinations not yet tried);
+// and whether a rule takes part at all is decided by label constraints only:
+// checkRule consults every store's MatchLabelConstraints and nothing else (a
+// peer on a store that is gone still belongs to the rule it matches).
+func ruleSearchExhaustive(c *Ctx) {
+	P := c.P
+	rule := c.Prop + "/search-state"
+	const pl = "server/schedule/placement"
+	en := P.Method(pl, "fitWorker", "enumPeers")
+	c.saw(fnName(en))
+	okExit, nLoop := true, 0
+	for _, l := range loopsOf(en) {
+		nLoop++
+		for b := range l.blocks {
+			for _, s := range b.Succs {
+				if !l.blocks[s] && b != l.header {
+					okExit = false
+				}
+			}
+		}
+	}
+	c.Check(okExit && nLoop > 0, rule, "candidate loop of "+fnName(en), "left only when the candidates are exhausted: every combination is compared", P.pos(en.Pos()), "the loop can be left early")
+	cr := P.Func(pl, "checkRule")
+	match := F(P.Func(pl, "MatchLabelConstraints"))
+	c.saw(fnName(cr))
+	okEvery, found := true, false
+	for _, l := range loopsOf(cr) {
+		found = true
+		if !everyIterationCalls(l, instrCallMatcher(match)) {
+			okEvery = false
+		}
+	}
+	c.Check(found && okEvery, rule, "stores consulted by "+fnName(cr), "every store is tested against the rule's label constraints — no store is passed over for its state", P.pos(cr.Pos()), "an iteration can skip the label test")
+}
+
 func init() {
 	register("C12", "Rule fitting partitions peers correctly and picks the best assignment", func(c *Ctx) {
 		c.Group("C12/comparator", "compareRuleFit orders by (peers ↑, role mismatches ↓, isolation ↑), antisymmetric; CompareRegionFit compares rule by rule then fewer orphans", func() { ruleFitComparators(c) })
 		c.Group("C12/fit-inputs", "every region peer is a candidate; every rule fit carries the isolation score of its selected peers", func() { ruleFitInputs(c) })
-		c.Group("C12/search-state", "enumeration marks/unmarks candidates in every iteration; a better fit clears later fits before re-searching; candidates satisfy constraints ∧ loose role ∧ unselected; orphans are exactly the unselected peers", func() { ruleFitSearchDiscipline(c) })
+		c.Group("C12/search-state", "enumeration marks/unmarks candidates in every iteration; a better fit clears later fits before re-searching; candidates satisfy constraints ∧ loose role ∧ unselected; orphans are exactly the unselected peers", func() { ruleFitSearchDiscipline(c); ruleSearchExhaustive(c) })
 		c.Group("C12/satisfied", "satisfied ⇔ count filled with matching roles for every rule and no orphan", func() { ruleSatisfiedAtoms(c) })
 		c.Group("C12/closed-enums", "role and operator switches handle every constant; label matching handles nil stores, exclusive labels and every constraint", func() { ruleClosedEnums(c); ruleLabelMatchAtoms(c) })
 	})
